@@ -82,6 +82,14 @@ def stepOp (s : DSt) (op : List String) (impl : List String) : DSt × Option Str
     let tr := t.toNat!
     let e : Pn.PacketNumber := match bits.toNat! with | 8 => .u8 tr | 16 => .u16 tr | 24 => .u24 tr | _ => .u32 tr
     let rj := s.ack.rj
+    -- a jump above the cap is not replayed on the model state (`List.replicate` of up to 2^31 cells): the harness ends
+    -- the case after such an operation; `pn_old_gap_fill` gives the model's cost = jump + 1
+    let big := match Pn.decode e rj.largest with | .ok pn => pn - rj.largest > costCap | .panic _ => false
+    if big then
+      let theirs := " ".intercalate impl
+      let pn := match Pn.decode e rj.largest with | .ok pn => pn | .panic _ => 0
+      (s, some (if theirs == "TIMEOUT" || theirs == "OOM" then theirs else s!"ok {pn}"))
+    else
     -- the code as it is (`experimental-C04-pn-gap.diff` is not in the fix set): `handlePn false`
     let r := handlePn false rj e true 100000
     let theirs := " ".intercalate impl
